@@ -1146,6 +1146,10 @@ func (*Context).evaluate
     ensures [C15] ctx.Config.DiceMinMode ==> result == -1
     ensures [C15] !ctx.Config.DiceMinMode && ctx.Config.DiceMaxMode ==> result == 1
     ensures [C15] !ctx.Config.DiceMinMode && !ctx.Config.DiceMaxMode ==> result == 0
+  // a top-level evaluation always publishes the spans it collected itself — also when there are none: the spans of an
+  // earlier run never stay behind (C14: the process text belongs to this run)
+  closure solveDetail
+    ensures [C14] ctx.forceSolveDetail || ctx.subThreadDepth == 0 ==> len(ctx.DetailSpans) == len(details)
   closure numOpCountAdd
     requires [C07] count >= 0
     ensures [C07] old(e.NumOpCount) + count <= math.MaxInt64 ==> e.NumOpCount == old(e.NumOpCount) + count
